@@ -24,6 +24,7 @@ func runC07(c *Ctx) {
 	c.Rule("R7.1", 8, "every verifier runs and is heard; success only with a nil aggregate")
 	c.Rule("R7.2", 3, "predefined names are the documented ones; unknown names are errors")
 	c.Rule("R7.3", 10, "definition bookkeeping: one self-definition per literal, one per declaration, both defects reported")
+	c.Rule("R7.5", 1, "distinct literals keep distinct values: escapes are resolved one character at a time")
 	c.Rule("R7.4", 3, "every pattern error surfaces before the automata are combined")
 
 	c.mute = map[string]bool{"R4.2": true}
@@ -40,6 +41,7 @@ func runC07(c *Ctx) {
 	checkPredefs(c, ev)
 	checkBookkeeping(c)
 	checkPatternErrors(c)
+	checkEscapeResolver(c, "R7.5", sp)
 }
 
 func checkVerifiers(c *Ctx, ev *evaluator) {
